@@ -9,6 +9,10 @@ pub fn dispatch(op: &str, _req: &Value) -> Value {
 		"csr_subsets" => csr_subsets(_req),
 		"c02_histories" => c02_histories(_req),
 		"c09_bfs" => c09_bfs(_req),
+		"c13_modes" => c13_modes(_req),
+		"c15_keys" => c15_keys(_req),
+		"duration_sweep" => duration_sweep(_req),
+		"ca_start" => ca_start(_req),
 		_ => json!({"ok": false, "machinery_error": format!("unknown op {op}")}),
 	}
 }
@@ -120,8 +124,11 @@ fn sigshapes(req: &Value) -> Value {
 			// full verification for every signature in a rare cell, the first 2000 of each key and
 			// every 16th after that; the length check above/below is applied to every signature
 			let rare = sig.len() != 2 * size || sig[0] == 0 || sig[size] == 0;
-			if sig.len() != 2 * size && failures.len() < 50 {
+			if sig.len() != 2 * size {
 				failures.push(json!({"msg": msg, "sig_hex": cu::hexs(&sig), "sig_len": sig.len(), "error": format!("signature has {} bytes instead of {}", sig.len(), 2 * size)}));
+				if failures.len() >= 3 {
+					break 'outer;
+				}
 				continue;
 			}
 			if !(rare || n % 16 == 0 || n < (k + 1) * 2000) {
@@ -612,4 +619,439 @@ fn c09_bfs(req: &Value) -> Value {
 		}
 	}
 	json!({"ok": true, "limits": limits, "states": seen.len(), "transitions": transitions, "depth": depth_done, "fixpoint": fixpoint, "capped": capped, "bad": bad, "samples": samples})
+}
+
+extern "C" {
+	fn umask(mask: u32) -> u32;
+}
+
+/// E4 for C13: every mode value in [from, to) for certificate and key files (the account file is
+/// always 0600), under the given umask, through the real storage functions into a fresh directory.
+fn c13_modes(req: &Value) -> Value {
+	use std::os::unix::fs::MetadataExt;
+	let from = req.get("from").and_then(|v| v.as_u64()).unwrap_or(0) as u32;
+	let to = req.get("to").and_then(|v| v.as_u64()).unwrap_or(4096) as u32;
+	let um = req.get("umask").and_then(|v| v.as_u64()).unwrap_or(0o022) as u32;
+	let dir = super::scenario::make_scratch();
+	let rt = tokio::runtime::Builder::new_current_thread().enable_all().build().unwrap();
+	let key = acme_common::crypto::gen_keypair(acme_common::crypto::KeyType::EcdsaP256).unwrap();
+	let keys = vec![key.clone(), key.clone()];
+	let old = unsafe { umask(um) };
+	let mut bad = vec![];
+	let mut n = 0u64;
+	let mut samples = vec![];
+	for mode in from..to {
+		let d = format!("{dir}/m{mode}");
+		std::fs::create_dir_all(format!("{d}/certs")).unwrap();
+		std::fs::create_dir_all(format!("{d}/accounts")).unwrap();
+		let mut fm = plain_fm(&d, "m", "x");
+		fm.cert_file_mode = mode;
+		fm.pk_file_mode = (mode * 7 + 0o123) & 0o7777; // a different value for the other option
+		let pk_mode = fm.pk_file_mode;
+		let r1 = rt.block_on(crate::storage::write_certificate(&fm, b"certificate"));
+		let r2 = rt.block_on(crate::storage::set_keypair(&fm, &key));
+		let acc = make_account(&fm, "m", 1, 1, 0, false, &keys);
+		let r3 = rt.block_on(acc.save());
+		let cp = rt.block_on(crate::storage::get_certificate_path(&fm)).unwrap();
+		let kp = rt.block_on(crate::storage::get_keypair_path(&fm)).unwrap();
+		let ap = std::path::PathBuf::from(format!("{d}/accounts/{}.account.bin", acme_common::b64_encode("m")));
+		for (what, path, want, res) in [
+			("certificate", &cp, mode & !um, r1.map_err(|e| e.message)),
+			("private-key", &kp, pk_mode & !um, r2.map_err(|e| e.message)),
+			("account", &ap, 0o600 & !um, r3.map_err(|e| e.message)),
+		] {
+			n += 1;
+			// a file created without owner write permission cannot even be opened for writing by a
+			// non-root daemon; as root (this sandbox) it works. Either an error or the right mode.
+			match std::fs::metadata(path) {
+				Ok(m) => {
+					let got = m.mode() & 0o7777;
+					// set-uid/set-gid/sticky are the kernel's business on open(2)/write(2) (observed: dropped);
+					// the nine permission bits are what the property fixes
+					if got & 0o777 != want & 0o777 {
+						bad.push(json!({"file": what, "configured": if what == "certificate" { mode } else if what == "private-key" { pk_mode } else { 0o600 }, "umask": um, "want": want, "got": got, "write_result": format!("{res:?}")}));
+					}
+				}
+				Err(_) => {
+					if res.is_ok() {
+						bad.push(json!({"file": what, "configured": mode, "umask": um, "want": want, "got": "no file although the write succeeded"}));
+					}
+				}
+			}
+		}
+		if samples.len() < 2 && mode % 1000 == 420 % 1000 {
+			samples.push(json!({"cert_file_mode": format!("{mode:o}"), "pk_file_mode": format!("{pk_mode:o}"), "umask": format!("{um:o}")}));
+		}
+		let _ = std::fs::remove_dir_all(&d);
+		if bad.len() > 30 {
+			break;
+		}
+	}
+	unsafe {
+		umask(old);
+	}
+	let _ = std::fs::remove_dir_all(&dir);
+	json!({"ok": true, "evaluated": n, "bad": bad, "samples": samples})
+}
+
+fn check_jwk_generic(kp: &acme_common::crypto::KeyPair, want: &[(&str, String)], kty: &str, alg_ok: &[&str], bad: &mut Vec<Value>, ctx: &Value) {
+	let jwk = match kp.jwk_public_key() {
+		Ok(j) => j,
+		Err(e) => {
+			bad.push(json!({"ctx": ctx, "oracle": "jwk-members", "error": e.message}));
+			return;
+		}
+	};
+	let obj = jwk.as_object().cloned().unwrap_or_default();
+	let mut required: Vec<String> = want.iter().map(|(k, _)| k.to_string()).collect();
+	required.push("kty".to_string());
+	for k in obj.keys() {
+		if !required.contains(k) && k != "alg" && k != "use" {
+			bad.push(json!({"ctx": ctx, "oracle": "jwk-members", "detail": format!("unexpected member {k}")}));
+		}
+	}
+	if obj.get("kty").and_then(|v| v.as_str()) != Some(kty) {
+		bad.push(json!({"ctx": ctx, "oracle": "jwk-members", "detail": format!("kty {:?}", obj.get("kty"))}));
+	}
+	for (k, v) in want {
+		if obj.get(*k).and_then(|x| x.as_str()) != Some(v.as_str()) {
+			bad.push(json!({"ctx": ctx, "oracle": "jwk-values", "member": k, "want": v, "got": obj.get(*k)}));
+		}
+	}
+	if let Some(a) = obj.get("alg") {
+		if !alg_ok.contains(&a.as_str().unwrap_or("")) {
+			bad.push(json!({"ctx": ctx, "oracle": "jwk-members", "detail": format!("alg {a}")}));
+		}
+	}
+	if let Some(u) = obj.get("use") {
+		if u.as_str() != Some("sig") {
+			bad.push(json!({"ctx": ctx, "oracle": "jwk-members", "detail": format!("use {u}")}));
+		}
+	}
+	// thumbprint input: RFC 7638 canonical form
+	let mut members: Vec<(String, String)> = want.iter().map(|(k, v)| (k.to_string(), v.clone())).collect();
+	members.push(("kty".to_string(), kty.to_string()));
+	members.sort();
+	let canon = format!(
+		"{{{}}}",
+		members
+			.iter()
+			.map(|(k, v)| format!("{}:{}", serde_json::to_string(k).unwrap(), serde_json::to_string(v).unwrap()))
+			.collect::<Vec<String>>()
+			.join(",")
+	);
+	match kp.jwk_public_key_thumbprint() {
+		Ok(t) => {
+			if t.to_string() != canon {
+				bad.push(json!({"ctx": ctx, "oracle": "thumbprint-input", "want": canon, "got": t.to_string()}));
+			}
+			// and the CA-side thumbprint code agrees on the digest
+			let mine = cu::thumbprint(&jwk).unwrap_or_default();
+			let theirs = cu::b64u_enc(&cu::sha256(t.to_string().as_bytes()));
+			if mine != theirs {
+				bad.push(json!({"ctx": ctx, "oracle": "thumbprint-input", "want": mine, "got": theirs}));
+			}
+		}
+		Err(e) => bad.push(json!({"ctx": ctx, "oracle": "thumbprint-input", "error": e.message})),
+	}
+}
+
+fn roundtrip_and_sign(kp: &acme_common::crypto::KeyPair, bad: &mut Vec<Value>, ctx: &Value, sign: bool) {
+	let pub_der = kp.inner_key.public_key_to_der().unwrap_or_default();
+	match kp.private_key_to_der().map_err(|e| e.message).and_then(|d| acme_common::crypto::KeyPair::from_der(&d).map_err(|e| e.message)) {
+		Ok(k2) => {
+			if k2.key_type != kp.key_type || k2.inner_key.public_key_to_der().unwrap_or_default() != pub_der {
+				bad.push(json!({"ctx": ctx, "oracle": "roundtrip", "detail": "DER round trip changed the key"}));
+			}
+		}
+		Err(e) => bad.push(json!({"ctx": ctx, "oracle": "roundtrip", "detail": format!("DER round trip failed: {e}")})),
+	}
+	match kp.private_key_to_pem().map_err(|e| e.message).and_then(|d| acme_common::crypto::KeyPair::from_pem(&d).map_err(|e| e.message)) {
+		Ok(k2) => {
+			if k2.key_type != kp.key_type || k2.inner_key.public_key_to_der().unwrap_or_default() != pub_der {
+				bad.push(json!({"ctx": ctx, "oracle": "roundtrip", "detail": "PEM round trip changed the key"}));
+			}
+		}
+		Err(e) => bad.push(json!({"ctx": ctx, "oracle": "roundtrip", "detail": format!("PEM round trip failed: {e}")})),
+	}
+	if sign {
+		let alg = kp.key_type.get_default_signature_alg();
+		let msg = b"eyJhbGciOiJ4In0.cGF5bG9hZA";
+		match (kp.sign(&alg, msg), kp.jwk_public_key().ok().and_then(|j| cu::jwk_to_pubkey(&j).ok())) {
+			(Ok(sig), Some(pk)) => {
+				if let Err(e) = cu::verify_sig(&pk, &alg.to_string(), msg, &sig) {
+					bad.push(json!({"ctx": ctx, "oracle": "signature", "detail": e, "sig_len": sig.len()}));
+				}
+			}
+			(Err(e), _) => bad.push(json!({"ctx": ctx, "oracle": "signature", "detail": e.message})),
+			(_, None) => bad.push(json!({"ctx": ctx, "oracle": "jwk-values", "detail": "the JWK does not describe a usable public key"})),
+		}
+	}
+}
+
+/// E4 for C15: deterministic construction of keys (EC private scalars from..to, OKP seeds from a
+/// counter, RSA with several public exponents, generated keys), loaded through the real
+/// KeyPair::from_der/from_pem, JWK compared with an independent encoding of the raw components.
+fn c15_keys(req: &Value) -> Value {
+	use openssl::bn::{BigNum, BigNumContext};
+	use openssl::ec::{EcGroup, EcKey, EcPoint};
+	use openssl::nid::Nid;
+	use openssl::pkey::{Id, PKey};
+	let kind = req.get("kind").and_then(|v| v.as_str()).unwrap_or("ecdsa-p256").to_string();
+	let from = req.get("from").and_then(|v| v.as_u64()).unwrap_or(1);
+	let to = req.get("to").and_then(|v| v.as_u64()).unwrap_or(100);
+	let mut bad: Vec<Value> = vec![];
+	let mut cells: std::collections::BTreeMap<String, u64> = Default::default();
+	let mut n = 0u64;
+	let mut samples = vec![];
+	match kind.as_str() {
+		"ecdsa-p256" | "ecdsa-p384" | "ecdsa-p521" => {
+			let (nid, crv, size, alg) = match kind.as_str() {
+				"ecdsa-p256" => (Nid::X9_62_PRIME256V1, "P-256", 32usize, "ES256"),
+				"ecdsa-p384" => (Nid::SECP384R1, "P-384", 48, "ES384"),
+				_ => (Nid::SECP521R1, "P-521", 66, "ES512"),
+			};
+			let mut group = EcGroup::from_curve_name(nid).unwrap();
+			group.set_asn1_flag(openssl::ec::Asn1Flag::NAMED_CURVE);
+			let ctxbn = BigNumContext::new().unwrap();
+			for d in from..to {
+				n += 1;
+				let dn = BigNum::from_dec_str(&d.to_string()).unwrap();
+				let mut pt = EcPoint::new(&group).unwrap();
+				pt.mul_generator(&group, &dn, &ctxbn).unwrap();
+				let ec = EcKey::from_private_components(&group, &dn, &pt).unwrap();
+				let pkey = PKey::from_ec_key(ec).unwrap();
+				let der = pkey.private_key_to_der().unwrap();
+				let ctx = json!({"kind": kind, "d": d});
+				let kp = match if d % 2 == 0 {
+					acme_common::crypto::KeyPair::from_der(&der)
+				} else {
+					acme_common::crypto::KeyPair::from_pem(&pkey.private_key_to_pem_pkcs8().unwrap())
+				} {
+					Ok(k) => k,
+					Err(e) => {
+						bad.push(json!({"ctx": ctx, "oracle": "roundtrip", "detail": format!("load failed: {}", e.message)}));
+						continue;
+					}
+				};
+				let (x, y) = cu::ec_affine_padded(&pkey, size).unwrap();
+				let lz = |b: &[u8]| b.iter().take_while(|v| **v == 0).count().min(2);
+				*cells.entry(format!("x{}", lz(&x))).or_insert(0) += 1;
+				*cells.entry(format!("y{}", lz(&y))).or_insert(0) += 1;
+				if (lz(&x) > 0 || lz(&y) > 0) && samples.len() < 2 {
+					samples.push(json!({"kind": kind, "d": d, "x_hex": cu::hexs(&x), "y_leading_zero_bytes": lz(&y)}));
+				}
+				check_jwk_generic(&kp, &[("crv", crv.to_string()), ("x", cu::b64u_enc(&x)), ("y", cu::b64u_enc(&y))], "EC", &[alg], &mut bad, &ctx);
+				if d % 64 == 0 || lz(&x) > 0 || lz(&y) > 0 {
+					roundtrip_and_sign(&kp, &mut bad, &ctx, d % 256 == 0);
+				}
+				if bad.len() > 30 {
+					break;
+				}
+			}
+		}
+		"ed25519" | "ed448" => {
+			let (id, crv, seedlen) = if kind == "ed25519" { (Id::ED25519, "Ed25519", 32) } else { (Id::ED448, "Ed448", 57) };
+			for c in from..to {
+				n += 1;
+				let mut seed = vec![0u8; seedlen];
+				let h = cu::sha256(format!("seed-{kind}-{c}").as_bytes());
+				for (i, b) in seed.iter_mut().enumerate() {
+					*b = h[i % 32] ^ (i as u8).wrapping_mul(31);
+				}
+				let pkey = PKey::private_key_from_raw_bytes(&seed, id).unwrap();
+				let ctx = json!({"kind": kind, "seed_counter": c});
+				let kp = match if c % 2 == 0 {
+					acme_common::crypto::KeyPair::from_der(&pkey.private_key_to_der().unwrap())
+				} else {
+					acme_common::crypto::KeyPair::from_pem(&pkey.private_key_to_pem_pkcs8().unwrap())
+				} {
+					Ok(k) => k,
+					Err(e) => {
+						bad.push(json!({"ctx": ctx, "oracle": "roundtrip", "detail": format!("load failed: {}", e.message)}));
+						continue;
+					}
+				};
+				let raw = pkey.raw_public_key().unwrap();
+				let x = cu::b64u_enc(&raw);
+				*cells.entry(format!("first-byte-zero={}", raw[0] == 0)).or_insert(0) += 1;
+				*cells.entry(format!("has-dash={}", x.contains('-'))).or_insert(0) += 1;
+				*cells.entry(format!("has-underscore={}", x.contains('_'))).or_insert(0) += 1;
+				check_jwk_generic(&kp, &[("crv", crv.to_string()), ("x", x)], "OKP", &["EdDSA", crv], &mut bad, &ctx);
+				if c % 16 == 0 || raw[0] == 0 {
+					roundtrip_and_sign(&kp, &mut bad, &ctx, c % 64 == 0 || raw[0] == 0);
+				}
+				if bad.len() > 30 {
+					break;
+				}
+			}
+		}
+		"rsa" => {
+			let specs: Vec<(u32, &str)> = vec![(2048, "3"), (2048, "65537"), (2048, "4294967297"), (4096, "65537")];
+			let only = req.get("only").and_then(|v| v.as_u64());
+			for (si, (bits, e)) in specs.iter().enumerate() {
+				if only.is_some() && only != Some(si as u64) {
+					continue;
+				}
+				n += 1;
+				let en = BigNum::from_dec_str(e).unwrap();
+				let rsa = openssl::rsa::Rsa::generate_with_e(*bits, &en).unwrap();
+				let want_n = cu::b64u_enc(&rsa.n().to_vec());
+				let want_e = cu::b64u_enc(&en.to_vec());
+				let pkey = PKey::from_rsa(rsa).unwrap();
+				let ctx = json!({"kind": "rsa", "bits": bits, "e": e});
+				let kp = match acme_common::crypto::KeyPair::from_der(&pkey.private_key_to_der().unwrap()) {
+					Ok(k) => k,
+					Err(e) => {
+						bad.push(json!({"ctx": ctx, "oracle": "roundtrip", "detail": format!("load failed: {}", e.message)}));
+						continue;
+					}
+				};
+				*cells.entry(format!("rsa{bits}/e={e}")).or_insert(0) += 1;
+				check_jwk_generic(&kp, &[("e", want_e), ("n", want_n)], "RSA", &["RS256"], &mut bad, &ctx);
+				roundtrip_and_sign(&kp, &mut bad, &ctx, true);
+			}
+		}
+		"generated" => {
+			for kt_name in ["ecdsa-p256", "ecdsa-p384", "ecdsa-p521", "ed25519", "ed448", "rsa2048", "rsa4096"] {
+				let kt: acme_common::crypto::KeyType = kt_name.parse().unwrap();
+				let count = if kt_name == "rsa4096" { (to / 4).max(1) } else { to };
+				for i in 0..count {
+					n += 1;
+					let kp = acme_common::crypto::gen_keypair(kt).unwrap();
+					let ctx = json!({"kind": "generated", "key_type": kt_name, "i": i});
+					*cells.entry(format!("generated/{kt_name}")).or_insert(0) += 1;
+					if kp.key_type != kt {
+						bad.push(json!({"ctx": ctx, "oracle": "roundtrip", "detail": "generated key has another type"}));
+					}
+					// the JWK must describe the same public key as OpenSSL's own export
+					match kp.jwk_public_key().ok().and_then(|j| cu::jwk_to_pubkey(&j).ok()) {
+						Some(pk) => {
+							if pk.pkey.public_key_to_der().unwrap_or_default() != kp.inner_key.public_key_to_der().unwrap_or_default() {
+								bad.push(json!({"ctx": ctx, "oracle": "jwk-values", "detail": "JWK describes another public key"}));
+							}
+						}
+						None => bad.push(json!({"ctx": ctx, "oracle": "jwk-values", "detail": "JWK unusable"})),
+					}
+					roundtrip_and_sign(&kp, &mut bad, &ctx, true);
+				}
+			}
+		}
+		_ => return json!({"ok": false, "machinery_error": "unknown kind"}),
+	}
+	json!({"ok": true, "kind": kind, "evaluated": n, "cells": cells, "bad": bad, "samples": samples})
+}
+
+/// Reference for the documented period grammar: one or more <digits><unit>, unit in s m h d w;
+/// value = exact sum; anything that does not fit 64-bit seconds must be rejected.
+fn ref_duration(s: &str) -> Option<u64> {
+	let b = s.as_bytes();
+	let mut i = 0;
+	let mut total: u128 = 0;
+	let mut parts = 0;
+	while i < b.len() {
+		let st = i;
+		while i < b.len() && b[i].is_ascii_digit() {
+			i += 1;
+		}
+		if i == st || i >= b.len() {
+			return None;
+		}
+		let digits = &s[st..i];
+		let mult: u128 = match b[i] {
+			b's' => 1,
+			b'm' => 60,
+			b'h' => 3600,
+			b'd' => 86400,
+			b'w' => 604800,
+			_ => return None,
+		};
+		i += 1;
+		// arbitrary-length numerals: saturate far above u64
+		let mut v: u128 = 0;
+		for c in digits.bytes() {
+			v = v.saturating_mul(10).saturating_add((c - b'0') as u128);
+			if v > (u64::MAX as u128) {
+				return None; // a part that does not fit 64 bits cannot be represented
+			}
+		}
+		total = total.saturating_add(v.saturating_mul(mult));
+		parts += 1;
+	}
+	if parts == 0 || total > u64::MAX as u128 {
+		return None;
+	}
+	Some(total as u64)
+}
+
+fn duration_sweep(req: &Value) -> Value {
+	let alphabet: Vec<char> = req.get("alphabet").and_then(|v| v.as_str()).unwrap_or("019smhdwx ").chars().collect();
+	let maxlen = req.get("maxlen").and_then(|v| v.as_u64()).unwrap_or(5) as usize;
+	let shard = req.get("shard").and_then(|v| v.as_u64()).unwrap_or(0);
+	let nshards = req.get("nshards").and_then(|v| v.as_u64()).unwrap_or(1);
+	let mut bad = vec![];
+	let mut n = 0u64;
+	let mut accepted = 0u64;
+	let mut check = |s: &str, bad: &mut Vec<Value>| {
+		let want = ref_duration(s);
+		let got = std::panic::catch_unwind(|| crate::duration::parse_duration(s));
+		let _ = super::take_panic();
+		match got {
+			Err(_) => bad.push(json!({"input": s, "want": want, "got": "panic"})),
+			Ok(Ok(d)) => {
+				if want != Some(d.as_secs()) || d.subsec_nanos() != 0 {
+					bad.push(json!({"input": s, "want": want, "got": d.as_secs()}));
+				}
+			}
+			Ok(Err(_)) => {
+				if want.is_some() {
+					bad.push(json!({"input": s, "want": want, "got": "rejected"}));
+				}
+			}
+		}
+		want.is_some()
+	};
+	// all strings of length 0..=maxlen over the alphabet, sharded by index
+	let k = alphabet.len() as u64;
+	let mut idx = 0u64;
+	for len in 0..=maxlen {
+		let count = k.pow(len as u32);
+		for c in 0..count {
+			if idx % nshards == shard {
+				let mut s = String::new();
+				let mut x = c;
+				for _ in 0..len {
+					s.push(alphabet[(x % k) as usize]);
+					x /= k;
+				}
+				n += 1;
+				if check(&s, &mut bad) {
+					accepted += 1;
+				}
+			}
+			idx += 1;
+		}
+	}
+	if let Some(extra) = req.get("extra").and_then(|v| v.as_array()) {
+		for e in extra.iter().filter_map(|x| x.as_str()) {
+			n += 1;
+			if check(e, &mut bad) {
+				accepted += 1;
+			}
+		}
+	}
+	bad.truncate(40);
+	json!({"ok": true, "evaluated": n, "accepted_by_grammar": accepted, "bad": bad})
+}
+
+static CA_KEEP: std::sync::Mutex<Vec<super::ca::CaServer>> = std::sync::Mutex::new(Vec::new());
+
+/// Start a mock CA that stays up until the worker exits (used by the release-binary runs of C19/C20).
+fn ca_start(req: &Value) -> Value {
+	super::run_reset(vec![]);
+	let cfg = req.get("cfg").cloned().unwrap_or(json!({}));
+	let c = super::ca::CaServer::start("ext", &cfg, None, None);
+	let base = c.base.clone();
+	CA_KEEP.lock().unwrap().push(c);
+	json!({"ok": true, "base": base})
 }
